@@ -53,7 +53,7 @@ def shards(tier, seed, scale):
     # development aid: --scale < 1 also thins the walk (stride)
     stride = 1 if scale >= 1 else max(1, int(round(1 / scale)))
     return common.mk_shards(NSHARDS, seed, tier, per_shard=per, scale=1.0,
-                            walk_rounds=WALK_ROUNDS[tier], walk_stride=stride)
+                            walk_rounds=ic.walk_rounds(WALK_ROUNDS[tier]), walk_stride=stride)
 
 
 DISPATCH_FUNCS = ("get_ir", "get_mnemo_expr")
@@ -198,7 +198,7 @@ def lift_one(spec, data, addr, instr, rec, regset, rng):
     loc_db = LocationDB()
     lines = [instr]
     if fam == "armt" and instr.name.startswith("IT") and len(instr.args) == 1:
-        lines = follow_it(spec, data, addr, instr, rng)
+        lines = follow_it(spec, data, addr, instr, random.Random(data))   # independent of the shard's PRNG
         if lines is None:
             rec.count("%s:it_block_undecodable" % spec.name)
             return None
